@@ -256,6 +256,11 @@ var c08ConstOps = []string{"+", "-", "*", "/", "%", "**", "<", "<=", ">", ">=", 
 var c08ConstVals = []string{"0", "1", "-1", "7", "9223372036854775807", "-9223372036854775807", "0.0", "2.5", "-0.5", "1e308", `""`, `"s"`, "true", "false", "[]", "[1, 2]", "/a/", "65535", "65536"}
 var c08ConstShapes = []string{"return %s %s %s;", "if (%s %s %s) { return 1; } return 2;", "function f() { return %s %s %s; } return f();", "x = %s %s %s; return x;"}
 
+// built-in functions called with odd constant arguments (a Prepare-time
+// evaluation of such calls would run them outside any recover)
+var c08Builtins = []string{"between", "float", "getenv", "int", "join", "keys", "len", "lower", "match", "max", "min", "panic", "print", "printf", "replace", "reverse", "sort", "split", "sprintf", "string", "trim", "type", "upper", "hour", "minute", "seconds", "day", "month", "year", "weekday"}
+var c08BuiltinArgs = []string{"", "1", `"s"`, `""`, "[]", `[1, "a", 2.5, [1]]`, `{"k": 1}`, "true", "/a(/", "-9223372036854775807", "99999999999999999", "1.5", `"%d %s %v %q %c %x %5.2f %*d %!"`, `"a", ""`, `"", ""`, `[1, 2], 3`, `1, 2, 3, 4`, `"%s"`, `"%d", "x"`, `[[], [1]], ","`, `"a,b", ",", 3`, "x", "1, x"}
+
 // scripts that build a deeply nested value at run time and then print it
 // (%d = number of loop iterations)
 var c08RuntimeNest = []string{
@@ -276,7 +281,7 @@ var c08LexEdges = []string{
 	"function", "function f", "function f(", "function f(a", "function f(a,", "function f(a) {", "function (a) {}", "function f(1) {}", "function f(a a) {}", "local", "local x", "local 1;", "return", "return;", "return return",
 	"switch", "switch (", "switch (1)", "switch (1) {", "switch (1) { case", "switch (1) { case 1", "switch (1) { case 1 {", "switch (1) { default", "switch (1) { default { } default { } }", "switch (1) { case 1, }", "switch (1) { 1 }",
 	"1 ?", "1 ? 2", "1 ? 2 :", "1 ? 2 : 3 ? 4 : 5", "x = ", "x += ", "= 1", "1 = 2", "x == ", "&&", "1 &&", "|| 1", "!", "!!", "√", "√√", "1 in", "in 1", "1 ** ", "%", "1 % ",
-	"//", "// comment", "/* c", "#", "@", "$", "$x", "~", "^", "&", "|", "\\", "\x00", "\xff", "\xc3", "\xe2\x82", "\r", "\r\n", "\t", "é", "x\x00y", "return \"a\x00b\";",
+	"\xef\xbb\xbfreturn 1;", "return 1;\r\n", "x = 1;\r\nreturn x;\r\n", "\xff\xfereturn 1;", "return 1;\x1a", "//", "// comment", "/* c", "#", "@", "$", "$x", "~", "^", "&", "|", "\\", "\x00", "\xff", "\xc3", "\xe2\x82", "\r", "\r\n", "\t", "é", "x\x00y", "return \"a\x00b\";",
 }
 
 var hostileDict = []string{"(", ")", "{", "}", "[", "]", ";", ",", ":", "?", "=", "==", "!=", "<", "<=", ">", ">=", "+", "-", "*", "/", "%", "**", "++", "--", "+=", "-=", "*=", "/=",
@@ -330,6 +335,11 @@ func (p *c08) Enumerate(tier string) [][]int32 {
 	for e := range c08LexEdges {
 		for pre := 0; pre < 4; pre++ {
 			out = append(out, []int32{14, int32(e), int32(pre)})
+		}
+	}
+	for b := range c08Builtins {
+		for a := range c08BuiltinArgs {
+			out = append(out, []int32{15, int32(b), int32(a), int32((a + b) % 2), int32(b % 2)})
 		}
 	}
 	for op := range c08ConstOps {
@@ -457,7 +467,7 @@ func (p *c08) usable(o *Outcome, ev *c08Eval, text string, opt bool, after strin
 	}
 }
 
-const nestKinds = 18
+const nestKinds = 19
 
 func nested(kind int, n int) string {
 	rep := strings.Repeat
@@ -490,6 +500,8 @@ func nested(kind int, n int) string {
 		return rep("while (x < 1) { ", n) + "x = 1;" + rep(" }", n) + " return x;"
 	case 13:
 		return rep("switch (1) { case 1 { ", n) + "x = 1;" + rep(" } }", n) + " return x;"
+	case 18:
+		return "x = [0]; return " + rep("x[", n) + "0" + rep("]", n) + ";"
 	case 14:
 		// more distinct constants than a 16-bit operand can index
 		var sb strings.Builder
@@ -611,7 +623,7 @@ func (p *c08) mutate(c *verifsim.Chooser, text string) (string, string) {
 func (p *c08) Run(c *verifsim.Chooser, st *Stats, render bool) *Outcome {
 	o := &Outcome{}
 	// weighted: 0 history x5, hostile text x3, tables x1 each, nesting, recursion
-	mode := []int{0, 1, 2, 3, 4, 5, 0, 0, 0, 0, 3, 3, 6, 7, 8}[c.Intn(15)]
+	mode := []int{0, 1, 2, 3, 4, 5, 0, 0, 0, 0, 3, 3, 6, 7, 8, 9}[c.Intn(16)]
 	sample := map[string]interface{}{}
 	defer func() {
 		if render {
@@ -706,6 +718,19 @@ func (p *c08) Run(c *verifsim.Chooser, st *Stats, render bool) *Outcome {
 			return o
 		}
 		p.usable(o, ev, text, opt, "recursion")
+	case 9: // built-ins with odd constant arguments
+		fn := c08Builtins[c.Intn(len(c08Builtins))]
+		args := c08BuiltinArgs[c.Intn(len(c08BuiltinArgs))]
+		text := fmt.Sprintf([]string{"return %s(%s);", "x = %s(%s); if (x) { return 1; } return x;"}[c.Intn(2)], fn, args)
+		if fn == "print" || fn == "printf" || fn == "panic" {
+			text = fmt.Sprintf("%s(%s); return 1;", fn, args)
+		}
+		currentDesc.Store("builtin " + fn)
+		sample["mode"], sample["script"] = "built-in with odd arguments", text
+		o.Digest.Str("builtin" + text)
+		o.Nontrivial = true
+		st.fault("builtin-odd-arguments")
+		p.prepareAndPoke(o, st, text, c.Intn(2) == 0, sample)
 	case 8: // lexer / parser edge table
 		edge := c08LexEdges[c.Intn(len(c08LexEdges))]
 		prefix := []string{"", "return ", "x = 1;\nreturn x + ", "function f(a) { return a; }\nif (f(1)) { y = "}[c.Intn(4)]
